@@ -114,6 +114,11 @@ def otherAttrs : List Nat :=
 theorem finding_every_other_attribute :
     ∀ a ∈ otherAttrs, ¬ Preserved (clashPkg true cGraphic gr1 a) (.master 0) := by decide
 
+/-- the list-valued attributes (`draw:class-names`, `presentation:class-names`, `text:class-names`,
+    `draw:stroke-dash-names`): no token of the list is rewritten either -/
+theorem finding_class_names :
+    ∀ a ∈ schemaListTyped, ¬ Preserved (clashPkg true cGraphic gr1 a) (.master 0) := by decide
+
 theorem finding_presentation_style_name :
     ¬ Preserved (clashPkg true cPresentation [112, 114, 49] a_presentation_style_name) (.master 0) := by decide
 
